@@ -934,6 +934,10 @@ func (p *BinaryProtocol) ReadLength() (int, error) {
 	if n < 0 {
 		return 0, errDecodeField
 	}
+	// the length comes from the input: the data it announces must lie in the buffer
+	if value > uint64(len(p.Buf)-p.Read-n) {
+		return 0, io.EOF
+	}
 	_, err := p.next(n)
 	return int(value), err
 }
